@@ -12,6 +12,9 @@ pub struct Knobs {
     pub long_pct: u64,
     pub long_min: usize,
     pub long_max: usize,
+    /// percent of the long runs that are "huge": thousands to tens of thousands of tiny frames
+    /// (count thresholds: 255, 1024, 4096, 65535 entries)
+    pub huge_of_long_pct: u64,
     pub short_max: usize,
     /// percent chance per position to insert an invalid call
     pub invalid_pct: u64,
@@ -54,6 +57,7 @@ impl Knobs {
             long_pct: 5,
             long_min: 50,
             long_max: 400,
+            huge_of_long_pct: 0,
             short_max: 12,
             invalid_pct: 0,
             bframes_pct: 30,
@@ -201,7 +205,10 @@ pub fn gen_prog_with_cfg(rng: &mut Rng, k: &Knobs, cfg: ProgCfg) -> (ProgCase, G
     let acodec = cfg.audio_effective().map(|a| a.codec);
     let arate = cfg.audio_effective().map(|a| a.rate).unwrap_or(48000).max(1);
     let long = rng.chance(k.long_pct, 100);
-    let n_video = if long {
+    let huge = long && rng.chance(k.huge_of_long_pct, 100);
+    let n_video = if huge {
+        *rng.pick(&[1500usize, 4097, 5000, 20000, 65535, 65536, 65537, 70000])
+    } else if long {
         rng.range(k.long_min as u64, k.long_max as u64) as usize
     } else {
         match rng.below(10) {
@@ -295,7 +302,7 @@ pub fn gen_prog_with_cfg(rng: &mut Rng, k: &Knobs, cfg: ProgCfg) -> (ProgCase, G
         } else {
             FrameShape::Delta
         };
-        let size = SizeClass::draw(rng, big);
+        let size = if huge { rng.range(1, 12) as usize } else { SizeClass::draw(rng, big) };
         let f = frames::build_video(rng, codec, shape, next_stamp(), size, k.decorate);
         let cc = f.has_config;
         let op = if reordered || (mixed && rng.bool()) {
@@ -323,8 +330,8 @@ pub fn gen_prog_with_cfg(rng: &mut Rng, k: &Knobs, cfg: ProgCfg) -> (ProgCase, G
             let span = if n_video > 1 { dts_list[n_video - 1] - dts_list[0] } else { 0.1 };
             let frame_dur = if ac == ACodec::Opus { 960.0 / 48000.0 } else { 1024.0 / arate as f64 };
             let astart_off = if rng.chance(k.start_offset_pct, 100) { *rng.pick(&[0.25f64, 1.0, 0.01, 2.5]) } else { 0.0 };
-            let mut want = ((span.min(30.0)) / frame_dur).ceil() as usize + 1;
-            want = want.min(if long { 600 } else { 24 });
+            let mut want = ((span.min(if huge { 3000.0 } else { 30.0 })) / frame_dur).ceil() as usize + 1;
+            want = want.min(if huge { 140_000 } else if long { 600 } else { 24 });
             if rng.chance(1, 6) {
                 want = rng.range(1, 3) as usize;
             }
@@ -335,7 +342,7 @@ pub fn gen_prog_with_cfg(rng: &mut Rng, k: &Knobs, cfg: ProgCfg) -> (ProgCase, G
             let astyle = if rng.chance(k.audio_jitter_pct, 100) { rng.range(1, 3) } else { 0 };
             let skew = *rng.pick(&[1.025f64, 0.98, 1.0005, 1.04]);
             for i in 0..want {
-                let size = rng.range(1, 400) as usize;
+                let size = if huge { rng.range(1, 8) as usize } else { rng.range(1, 400) as usize };
                 let f = frames::build_audio(rng, ac, next_stamp(), size, k.decorate);
                 let op = if use_enc_a && astart_off == 0.0 && first_v == 0.0 {
                     Op::EncAudio { data: Hex(f.data), samples: if ac == ACodec::Opus { 960 } else { 1024 } }
@@ -491,7 +498,8 @@ pub fn gen_prog_with_cfg(rng: &mut Rng, k: &Knobs, cfg: ProgCfg) -> (ProgCase, G
         }
     }
 
-    let faults = draw_faults(rng, k);
+    // huge histories run fault-free: a byte-at-a-time sink under megabytes of output tests the sink, not the muxer
+    let faults = if huge { FaultPlan::default() } else { draw_faults(rng, k) };
     (ProgCase { cfg, ops, faults }, GenInfo { n_video, n_audio, reordered, invalid_inserted, style })
 }
 
@@ -904,7 +912,11 @@ pub fn gen_frag(rng: &mut Rng, k: &FragKnobs) -> FragCase {
     }
 
     let long = rng.chance(k.long_pct, 100);
-    let n_ops = if long { rng.range(40, 300) } else { rng.range(1, 16) } as usize;
+    // huge: thousands of tiny samples, either all in one fragment or one fragment each (count thresholds:
+    // more than 255 / 1024 / 65535 samples in a run, more than 255 / 65535 sequence numbers)
+    let huge = long && !k.boundary && rng.chance(2, 100);
+    let huge_one_fragment = huge && rng.bool();
+    let n_ops = if huge { *rng.pick(&[300usize, 1100, 4200, 66000]) } else if long { rng.range(40, 300) as usize } else { rng.range(1, 16) as usize };
     let mut ops = Vec::with_capacity(n_ops);
     let step_style = rng.below(5);
     let start: u64 = if k.boundary {
@@ -917,6 +929,7 @@ pub fn gen_frag(rng: &mut Rng, k: &FragKnobs) -> FragCase {
     let mut stamp = rng.next_u64();
     // a flush policy: after every sample / every k samples / random
     let flush_every = match rng.below(4) {
+        _ if huge => (!huge_one_fragment) as u64,
         0 => 1,
         1 => rng.range(2, 5),
         _ => 0,
@@ -924,7 +937,7 @@ pub fn gen_frag(rng: &mut Rng, k: &FragKnobs) -> FragCase {
     let mut since_flush = 0u64;
     let reorder = rng.chance(1, 3);
     for _ in 0..n_ops {
-        let r = rng.below(100);
+        let r = if huge { rng.below(60 + 2 * (!huge_one_fragment) as u64) * 100 / 100 } else { rng.below(100) };
         if r < 60 || first {
             if !first {
                 dts = dts.wrapping_add(match step_style {
@@ -968,11 +981,12 @@ pub fn gen_frag(rng: &mut Rng, k: &FragKnobs) -> FragCase {
             };
             stamp = stamp.wrapping_add(0x9e3779b97f4a7c15);
             let size = match rng.below(12) {
+                _ if huge => rng.range(0, 9) as usize,
                 0 => 0,
                 1 if k.big && rng.chance(1, 8) => rng.range(60000, 70000) as usize,
                 _ => rng.range(1, 60) as usize,
             };
-            let mut data = if rng.chance(1, 2) {
+            let mut data = if !huge && rng.chance(1, 2) {
                 // the documented input format: 4-byte length-prefixed NAL units; lengths include the ones whose
                 // prefix looks like a start code (1 -> 00 00 00 01, 256..=511 -> 00 00 01 xx)
                 let mut d = Vec::new();
@@ -1018,7 +1032,7 @@ pub fn gen_frag(rng: &mut Rng, k: &FragKnobs) -> FragCase {
             ops.push(FragOp::Init);
         }
     }
-    if rng.chance(3, 4) {
+    if huge || rng.chance(3, 4) {
         ops.push(FragOp::Flush);
     }
     if rng.chance(1, 3) {
